@@ -29,6 +29,18 @@ theorem copy_faithful (h : Heap.H) (i j p a : Nat) (hsl : h.slot i p = some a) :
     ((Heap.copyStep h i j h p).slot j p).map (Heap.content (Heap.copyStep h i j h p)) = some (Heap.content h a) := by
   simp [Heap.copyStep, hsl, Heap.alloc, Heap.content]
 
+/-- the whole copy operation (deepcopy / clone / pickle round trip over every dict-valued parameter,
+    in any order, with repetitions, even onto itself) is faithful: every copied slot of the new
+    instance holds the content the original's slot held -/
+theorem copy_faithful_all (h : Heap.H) (i j : Nat) (ps : List Nat) (p a : Nat) (hp : p ∈ ps)
+    (hsl : h.slot i p = some a) :
+    ((Heap.step true h (.copy i j ps)).slot j p).map (Heap.content (Heap.step true h (.copy i j ps)))
+      = some (Heap.content h a) := by
+  obtain ⟨b, h1, _, h3⟩ := Heap.copy_fold_faithful h i j p a hsl ps h (Or.inr hp)
+  simp only [Heap.step]
+  rw [h1]
+  simp [Heap.content, h3]
+
 /-- operations on the copy never touch the original's cells or slots, and vice versa -/
 theorem copy_independent (h : Heap.H) (hs : Heap.Sep h) (op : Heap.Op) (i j : Nat) (hij : i ≠ j) (hact : op.actor = some j)
     (p a : Nat) (hsl : h.slot i p = some a) :
